@@ -1,0 +1,194 @@
+//! Scheduling hooks for the verification harness. Compiled only with `--cfg iwe_verif`;
+//! a normal build contains none of this.
+//!
+//! A request worker passes three pause points (`Start`, `Respond`, `Exit`), the message loop
+//! reports when it begins and ends handling a notification. Without an installed controller
+//! every hook is a no-op. With one, every hook sends an `Event`; in stepping mode a worker
+//! additionally blocks at a pause point until the controller permits `(request id, point)`.
+use std::cell::RefCell;
+use std::ops::Deref;
+use std::sync::mpsc::Sender;
+use std::sync::{Condvar, Mutex, MutexGuard};
+
+use lsp_server::RequestId;
+
+#[derive(Debug, Clone, Copy, PartialEq, Eq)]
+pub enum Point {
+    /// the worker thread runs and owns its clone of the router
+    Start,
+    /// the result is computed, nothing has been sent yet
+    Respond,
+    /// everything is sent, the clone of the router is still alive
+    Exit,
+}
+
+#[derive(Debug, Clone, PartialEq, Eq)]
+pub enum Event {
+    /// a worker reached a pause point (`panicking`: it got there by unwinding)
+    At {
+        point: Point,
+        id: String,
+        panicking: bool,
+    },
+    /// the worker has dropped its clone of the router
+    Gone { id: String },
+    /// the loop thread starts to handle a notification
+    NoteBegin { method: String },
+    /// the loop thread is done with it (`panicked`: by unwinding, i.e. the notification is dropped)
+    NoteEnd { method: String, panicked: bool },
+}
+
+struct Control {
+    events: Option<Sender<Event>>,
+    stepping: bool,
+    permits: Vec<(String, Point)>,
+}
+
+static CONTROL: Mutex<Control> = Mutex::new(Control {
+    events: None,
+    stepping: false,
+    permits: Vec::new(),
+});
+static CHANGED: Condvar = Condvar::new();
+
+thread_local! {
+    static CURRENT: RefCell<Option<String>> = const { RefCell::new(None) };
+}
+
+fn control() -> MutexGuard<'static, Control> {
+    CONTROL.lock().unwrap_or_else(|e| e.into_inner())
+}
+
+/// Route events to `events`; with `stepping` workers block at every pause point.
+pub fn install(events: Sender<Event>, stepping: bool) {
+    let mut c = control();
+    c.events = Some(events);
+    c.stepping = stepping;
+    c.permits.clear();
+    CHANGED.notify_all();
+}
+
+/// Back to no-op hooks; releases every blocked worker.
+pub fn uninstall() {
+    let mut c = control();
+    c.events = None;
+    c.stepping = false;
+    c.permits.clear();
+    CHANGED.notify_all();
+}
+
+/// Let the worker of request `id` pass `point` (once).
+pub fn permit(id: &str, point: Point) {
+    let mut c = control();
+    c.permits.push((id.to_string(), point));
+    CHANGED.notify_all();
+}
+
+/// Stop blocking: every worker runs to completion, events are still sent.
+pub fn free_run() {
+    let mut c = control();
+    c.stepping = false;
+    CHANGED.notify_all();
+}
+
+/// The request the current thread is working on (for a panic hook).
+pub fn current_request() -> Option<String> {
+    CURRENT.try_with(|c| c.borrow().clone()).ok().flatten()
+}
+
+fn emit(event: Event) {
+    let c = control();
+    if let Some(events) = &c.events {
+        let _ = events.send(event);
+    }
+}
+
+fn pause(point: Point, id: &str) {
+    let mut c = control();
+    match &c.events {
+        Some(events) => {
+            let _ = events.send(Event::At {
+                point,
+                id: id.to_string(),
+                panicking: std::thread::panicking(),
+            });
+        }
+        None => return,
+    }
+    loop {
+        if !c.stepping || c.events.is_none() {
+            return;
+        }
+        if let Some(i) = c.permits.iter().position(|(k, p)| k == id && *p == point) {
+            c.permits.remove(i);
+            return;
+        }
+        c = CHANGED.wait(c).unwrap_or_else(|e| e.into_inner());
+    }
+}
+
+/// Pause point inside `on_request`.
+pub fn at(point: Point, id: &RequestId) {
+    let id = id.to_string();
+    if point == Point::Start {
+        let _ = CURRENT.try_with(|c| *c.borrow_mut() = Some(id.clone()));
+    }
+    pause(point, &id);
+}
+
+/// Wraps the worker's clone of the router: dropping it is the `Exit` pause point, then the
+/// clone is released, then `Gone` is reported.
+pub struct Held<T> {
+    inner: Option<T>,
+    id: String,
+}
+
+impl<T> Held<T> {
+    pub fn new(inner: T, id: &RequestId) -> Held<T> {
+        Held {
+            inner: Some(inner),
+            id: id.to_string(),
+        }
+    }
+}
+
+impl<T> Deref for Held<T> {
+    type Target = T;
+
+    fn deref(&self) -> &T {
+        self.inner.as_ref().expect("present until dropped")
+    }
+}
+
+impl<T> Drop for Held<T> {
+    fn drop(&mut self) {
+        pause(Point::Exit, &self.id);
+        drop(self.inner.take());
+        emit(Event::Gone {
+            id: self.id.clone(),
+        });
+    }
+}
+
+/// Reports begin and end of the handling of one notification on the loop thread.
+pub struct NoteGuard {
+    method: String,
+}
+
+pub fn note(method: &str) -> NoteGuard {
+    emit(Event::NoteBegin {
+        method: method.to_string(),
+    });
+    NoteGuard {
+        method: method.to_string(),
+    }
+}
+
+impl Drop for NoteGuard {
+    fn drop(&mut self) {
+        emit(Event::NoteEnd {
+            method: self.method.clone(),
+            panicked: std::thread::panicking(),
+        });
+    }
+}
